@@ -16,6 +16,7 @@ package internal
 
 import (
 	"encoding/json"
+	"errors"
 	"fmt"
 	"log/slog"
 	"net/http"
@@ -71,6 +72,8 @@ func newCacheError(err error, op, message string) *CacheError {
 
 var _ slog.LogValuer = (*CacheError)(nil)
 
+var errEntryIDMismatch = errors.New("entry does not belong to the key it was read from")
+
 func (r *responseCache) Get(responseKey string, req *http.Request) (*Response, error) {
 	data, err := r.cache.Get(responseKey)
 	if err != nil {
@@ -82,6 +85,15 @@ func (r *responseCache) Get(responseKey string, req *http.Request) (*Response, e
 			err,
 			"Get",
 			fmt.Sprintf("failed to unmarshal cached entry for key %q", responseKey),
+		)
+	}
+	if entry.ID != responseKey {
+		// The bytes are a well-formed entry, but not the one stored under this key (a value moved
+		// or copied between keys of the backing store): it must not be served for this key.
+		return nil, newCacheError(
+			errEntryIDMismatch,
+			"Get",
+			fmt.Sprintf("entry under key %q was stored as %q", responseKey, entry.ID),
 		)
 	}
 	return entry, nil
